@@ -148,16 +148,17 @@ def build(P):
         corrupt = [b"STRING 99999999999999999999 x", b"STRING 18446744073709551616 x", b"STRING 18446744073709551615 x", b"STRING 1234567890123456789 x", b"STRING 0000000000000000000000003 abc",
                    b"ARRAY 99999999999999999999 INTEGER 1", b"ENUM Col 99999999999999999999", b"DATE 99999999999999999999 1 2000", b"DATE 1 1 99999999999999999999", b"INTEGER -99999999999999999999", b"REAL 1e99999999999999999999",
                    b"STRING abc", b"STRING 999999999999999 x", b"STRING -1 x", b"STRING 5 ab", b"STRING", b"STRING 3", b"DATE 300 300 99999", b"DATE 31 2 2020", b"DATE 1 1", b"DATE -1 1 2000",
-                   b"INTEGER 99999999999999999999", b"INTEGER x", b"INTEGER", b"REAL 1e999", b"REAL x", b"BOOLEAN MAYBE", b"CHAR", b"CHAR ", b"ENUM Col 7", b"ENUM Nope 0", b"ENUM Col -1",
+                   b"INTEGER 99999999999999999999", b"INTEGER x", b"INTEGER", b"REAL 1e999", b"REAL x", b"BOOLEAN MAYBE", b"CHAR", b"CHAR ", b"ENUM Col 7", b"ENUM Nope 0", b"ENUM Col -1", b"ENUM Col 2", b"ENUM Col 3", b"ENUM Col 0", b"ENUM Col 18446744073709551615", b"ENUM Col 4294967296", b"ENUM Col 4294967297",
                    b"COMPOSITE Rc", b"COMPOSITE Nope INTEGER 1", b"COMPOSITE Rc STRING 1 a", b"ARRAY 2 INTEGER 1 INTEGER 2", b"ARRAY 3 INTEGER 1", b"ARRAY 18446744073709551615 INTEGER 1", b"ARRAY -1",
                    b"#", b"##\n#", b"\x00\xff\xfe", b" ", b"\n\n\n", b"INTEGER 5\n#cont\n#cont2", b"#lead\nINTEGER 5"]
         cases = []
         j = 0
         for decl, v in targets:
             pool = valid + corrupt + [mutate(r, x) for x in valid for _ in range(sizes(tier, 2, 12))]
+            use = "OUTPUT v[1], v[3]" if "ARRAY" in decl else ("OUTPUT v.fld" if "Rc" in decl else ("OUTPUT v\nOUTPUT v + 1\nOUTPUT v = Red" if "Col" in decl else "OUTPUT v"))
             for content in pool:
                 j += 1
-                prog = "%s\nOPENFILE \"in.dat\" FOR RANDOM\nSEEK \"in.dat\", 1\nGETRECORD \"in.dat\", %s\nOUTPUT \"loaded\"\nCLOSEFILE \"in.dat\"\n" % (decl, v)
+                prog = "%s\nOPENFILE \"in.dat\" FOR RANDOM\nSEEK \"in.dat\", 1\nGETRECORD \"in.dat\", %s\nOUTPUT \"loaded\"\n%s\nCLOSEFILE \"in.dat\"\n" % (decl, v, use)
                 cases.append(Case(id="C01-rf-%d" % j, prog=prog.encode(), files={"in.dat": ("f", content + r.choice([b"", b"\n"]))}, meta=dict(compare=("exit", "diagkind"))))
         for i in range(sizes(tier, 60, 2000)):
             content = bytes(r.randrange(256) for _ in range(r.randint(0, 200)))
@@ -407,11 +408,22 @@ def build(P):
 
     # ------------------------------------------------------------------ C12
     FAILING = {"syntax": ["x <- (", "OUTPUT )", "IF THEN"], "undefined": ["OUTPUT nope_zz", "nope_zz + 1"], "type": ["keep_i <- \"s\"", "keep_s <- 5"], "redecl": ["DECLARE keep_i : INTEGER", "CONSTANT KEEP_C = 2"],
-               "const": ["KEEP_C <- 9"], "oob": ["keep_a[9] <- 1", "OUTPUT keep_a[0]"], "file": ["READFILE \"none.txt\", keep_s", "CLOSEFILE \"none.txt\"", "OPENFILE \"keep.txt\" FOR WRITE", "WRITEFILE \"none.txt\", 1", "SEEK \"none.txt\", 1"],
+               "const": ["KEEP_C <- 9"], "oob": ["keep_a[9] <- 1", "OUTPUT keep_a[0]"], "file": ["READFILE \"none.txt\", keep_s", "CLOSEFILE \"none.txt\"", "OPENFILE \"keep.txt\" FOR WRITE", "WRITEFILE \"none.txt\", 1", "SEEK \"none.txt\", 1",
+                        # an OPENFILE the operating system refuses must leave no handle behind (probed by the CLOSEFILEs of PROBE)
+                        "OPENFILE \"nodir_zz/x.txt\" FOR WRITE", "OPENFILE \"nodir_zz/x.dat\" FOR RANDOM", "OPENFILE \"nodir_zz/x.txt\" FOR APPEND", "OPENFILE \"nodir_zz/x.txt\" FOR READ"],
+               # records that stop decoding half-way (written when the type had another layout / damaged files): the failing GETRECORD must leave the variable as it was
+               "record": ["GETRECORD \"keeprec.dat\", keep_r", "GETRECORD \"keeparr.dat\", keep_a", "GETRECORD \"keeprec.dat\", keep_i", "GETRECORD \"keepnest.dat\", keep_n", "GETRECORD \"keeparr.dat\", keep_r", "SEEK \"keeprec.dat\", 5"],
                "newvar": ["fresh_zz <- 1 DIV 0", "READFILE \"none.txt\", fresh_zq", "fresh_zr <- nope_zz"]}
     ESTABLISH = ["DECLARE keep_i : INTEGER", "keep_i <- 41", "DECLARE keep_s : STRING", "keep_s <- \"kept\"", "CONSTANT KEEP_C = 7", "DECLARE keep_a : ARRAY[1:2] OF INTEGER", "keep_a[1] <- 11",
-                 "TYPE KeepE = (K1, K2)", "DECLARE keep_e : KeepE", "keep_e <- K2", "PROCEDURE KeepP\nOUTPUT \"proc ok\"\nENDPROCEDURE", "OPENFILE \"keep.txt\" FOR WRITE", "WRITEFILE \"keep.txt\", \"first\""]
-    PROBE = ["keep_i", "keep_s", "KEEP_C", "keep_a[1]", "keep_e", "CALL KeepP", "WRITEFILE \"keep.txt\", \"second\"", "fresh_zz", "fresh_zq", "fresh_zr"]
+                 "TYPE KeepE = (K1, K2)", "DECLARE keep_e : KeepE", "keep_e <- K2", "PROCEDURE KeepP\nOUTPUT \"proc ok\"\nENDPROCEDURE", "OPENFILE \"keep.txt\" FOR WRITE", "WRITEFILE \"keep.txt\", \"first\"",
+                 "TYPE KeepR\nDECLARE a : INTEGER\nDECLARE b : STRING\nDECLARE c : ARRAY[1:2] OF INTEGER\nENDTYPE", "DECLARE keep_r : KeepR", "keep_r.a <- 5", "keep_r.b <- \"old\"", "keep_r.c[2] <- 6",
+                 "TYPE KeepN\nDECLARE k : INTEGER\nDECLARE inner : KeepR\nENDTYPE", "DECLARE keep_n : KeepN", "keep_n.k <- 8", "keep_n.inner.a <- 9", "keep_a[2] <- 12",
+                 "OPENFILE \"keeprec.dat\" FOR RANDOM", "OPENFILE \"keeparr.dat\" FOR RANDOM", "OPENFILE \"keepnest.dat\" FOR RANDOM"]
+    KEEPFILES = {"keeprec.dat": ("f", b"COMPOSITE KeepR INTEGER 111 INTEGER 222 ARRAY 2 INTEGER 1 INTEGER 2\n"), "keeparr.dat": ("f", b"ARRAY 2 INTEGER 55 STRING 1 x\n"),
+                 "keepnest.dat": ("f", b"COMPOSITE KeepN INTEGER 77 COMPOSITE KeepR INTEGER 99 STRING 3 new ARRAY 2 INTEGER 1 BOOLEAN TRUE\n")}
+    PROBE = ["keep_i", "keep_s", "KEEP_C", "keep_a[1]", "keep_e", "CALL KeepP", "WRITEFILE \"keep.txt\", \"second\"", "fresh_zz", "fresh_zq", "fresh_zr",
+             "keep_a[2]", "keep_r.a", "keep_r.b", "keep_r.c[1]", "keep_r.c[2]", "keep_n.k", "keep_n.inner.a", "keep_n.inner.b", "keep_n.inner.c[1]",
+             "CLOSEFILE \"nodir_zz/x.txt\"", "CLOSEFILE \"nodir_zz/x.dat\"", "CLOSEFILE \"keeprec.dat\"", "CLOSEFILE \"keeparr.dat\"", "CLOSEFILE \"keepnest.dat\""]
 
     def split_entries(lines):
         """group rendered lines into REPL entries: block constructs (and everything up to their end) form one entry"""
@@ -477,8 +489,8 @@ def build(P):
             for f in fl:
                 k += 1
                 # (the base session first: its output is what the oracle of the failing session compares with)
-                cases.append(repl_case("C12-base-%d" % k, ESTABLISH + PROBE + ["CLOSEFILE \"keep.txt\""], meta=dict(units=["base " + f], role="survive-base", fail=f)))
-                cases.append(repl_case("C12-fail-%d" % k, ESTABLISH + [f] + PROBE + ["CLOSEFILE \"keep.txt\""], meta=dict(units=[f], role="survive", fail=f, noshrink=True)))
+                cases.append(repl_case("C12-base-%d" % k, ESTABLISH + PROBE + ["CLOSEFILE \"keep.txt\""], files=dict(KEEPFILES), meta=dict(units=["base " + f], role="survive-base", fail=f)))
+                cases.append(repl_case("C12-fail-%d" % k, ESTABLISH + [f] + PROBE + ["CLOSEFILE \"keep.txt\""], files=dict(KEEPFILES), meta=dict(units=[f], role="survive", fail=f, noshrink=True)))
         yield ("survival", cases)
         # RUNFILE between entries, '?' and keyword-prefixed identifiers
         prog = b"OUTPUT \"from file\"\nfv <- 5\nOUTPUT fv\n"
